@@ -75,10 +75,10 @@ func init() { prop("C14", "C14-R1") }
 func init() {
 	prop("C03", "C03-R5")
 	prop("C07", "C03-R5", "C03-R3")
-	prop("C01", "C08-R1", "C14-R1")
+	prop("C01", "C08-R1", "C14-R1/recovery")
 	prop("C02", "C08-R1", "C20-R1")
 	prop("C16", "C19-R1")
-	prop("C20", "C14-R1")
+	prop("C20", "C14-R1/recovery")
 }
 
 func init() {
@@ -95,7 +95,7 @@ func init() {
 
 func init() {
 	prop("C05", "C01-R1")
-	prop("C11", "C14-R1")
+	prop("C11", "C14-R1/join")
 }
 
 func init() {
